@@ -28,7 +28,8 @@ func (c *wsNetConn) Write(b []byte) (n int, err error) {
 }
 
 func (c *wsNetConn) Close() error {
-	panic("unimplemented")
+	// the underlying connection is closed by ServerConn.
+	return nil
 }
 
 func (c *wsNetConn) LocalAddr() net.Addr {
